@@ -14,12 +14,15 @@
 (*       template alone, before / after a second route (fallback, same     *)
 (*       kind of criterion, non-inbound);                                  *)
 (*  "P"  basic auth, "H" HMAC auth, "F" forward auth: one authenticated    *)
-(*       inbound route /h and the complete auth-material table.            *)
+(*       inbound route /h and the complete auth-material table;            *)
+(*  "X"  two routes /h/x and /h with different auth kinds (or none), and   *)
+(*       the material of either sent to both: authentication is that of    *)
+(*       the route that resolves, nothing else.                            *)
 (***************************************************************************)
 EXTENDS Ingress, Json
 
 CONSTANTS
-  Fams,          \* subset of {"A", "B", "P", "H", "F"}
+  Fams,          \* subset of {"A", "B", "P", "H", "F", "X"}
   AShape,        \* AShape[n] = size of the path universe for family-A configurations with n routes (0 = none)
   PresenceFull   \* TRUE: HMAC header-presence combinations crossed with everything; FALSE: only with clock offset 0
 
@@ -125,7 +128,16 @@ FwdA(tmo, ep) == [NoAuth EXCEPT !.k = "forward", !.tmo = tmo, !.ep = ep]
 ConfigsF == {<<AuthRt(FwdA("default", "script"), <<>>)>>, <<AuthRt2(FwdA("short", "script"), <<>>)>>,
              <<AuthRt(FwdA("default", "closed"), <<>>)>>}
 
+XRt(path, a, tg) == [ch |-> "inbound", path |-> path, m |-> M0, auth |-> a, tg |-> tg]
+XHmac  == HmacA("default", 300, <<"s1">>, <<>>)
+XBasic == [NoAuth EXCEPT !.k = "basic", !.users = <<[u |-> "u1", p |-> "p1"]>>, !.pwform = "plain"]
+ConfigsX == {<<XRt(PHX, XHmac, 0), XRt(PH, XBasic, 1)>>, <<XRt(PHX, XBasic, 0), XRt(PH, XHmac, 2)>>,
+             <<XRt(PHX, XHmac, 0), XRt(PH, NoAuth, 0)>>, <<XRt(PH, NoAuth, 0), XRt(PHX, XHmac, 0)>>,
+             <<XRt(PH, XBasic, 0), XRt(PHX, XHmac, 0)>>}
+IsX(c) == Len(c) = 2 /\ {c[1].path, c[2].path} = {PH, PHX}
+
 Configs ==
+  (IF "X" \in Fams THEN ConfigsX ELSE {}) \cup
   (IF "A" \in Fams THEN ConfigsA ELSE {}) \cup (IF "B" \in Fams THEN ConfigsB ELSE {})
   \cup (IF "P" \in Fams THEN ConfigsP ELSE {}) \cup (IF "H" \in Fams THEN ConfigsH ELSE {})
   \cup (IF "F" \in Fams THEN ConfigsF ELSE {})
@@ -201,11 +213,26 @@ Creds(c) ==
        [] a.k = "forward" -> ForwardCreds(a)
        [] OTHER           -> {NoCred}
 
+\* a small set of material per auth kind for the two-route configurations
+CredsLite(a) ==
+  CASE a.k = "basic" ->
+         LET B == [NoCred EXCEPT !.k = "basic"]
+         IN {[B EXCEPT !.wf = "absent"], [B EXCEPT !.wf = "ok", !.user = "u1", !.pwof = "p1", !.pwrel = "eq"],
+             [B EXCEPT !.wf = "ok", !.user = "u1", !.pwof = "p1", !.pwrel = "samelen"]}
+    [] a.k = "hmac" ->
+         LET H == [NoCred EXCEPT !.k = "hmac", !.tsf = "int", !.ts = 500, !.now = 500000]
+         IN {[H EXCEPT !.ps = "present", !.pt = "present", !.pn = "present", !.sigc = sk[1], !.key = sk[2]] : sk \in SigKeys(a, 500)}
+            \cup {[H EXCEPT !.ps = p[1], !.pt = p[2], !.pn = p[3], !.sigc = "ok", !.key = BestKey(a, 500)] : p \in (Pres \X Pres \X Pres)}
+    [] OTHER -> {NoCred}
+
 (* ------------------------------------------------------------- requests *)
 Rq(p, mth, h, x, qq, ip, cr) == [path |-> p, method |-> mth, host |-> h, hdr |-> x, q |-> qq, ip |-> ip, cred |-> cr]
 
 Requests(c) ==
-  IF HasAuth(c)
+  IF IsX(c)
+  THEN {Rq(p, "POST", DefaultHost, <<>>, <<>>, DefaultIp, cr) :
+           p \in {PH, PHX, <<"h", "y">>}, cr \in {NoCred} \cup UNION {CredsLite(c[i].auth) : i \in DOMAIN c}}
+  ELSE IF HasAuth(c)
   THEN {Rq(p, mth, DefaultHost, <<>>, <<>>, DefaultIp, cr) :
            p \in (IF c[1].auth.k = "hmac" THEN {PHX} ELSE {PH, PHX}),
            mth \in (IF c[1].m.methods = <<>> THEN {"POST"} ELSE Range(c[1].m.methods)),
